@@ -509,7 +509,19 @@ FaultStep(e) ==
       cloneStrict == (e.pn = "clone" /\ e.op = "clone_from" /\ t \in live /\ u >= 1 /\ u <= Len(tb) /\ tb[u].mask # 0)
                        \* (HashTable does not override clone_from: it is `*self = source.clone()`, a panic leaves the target untouched)
                        => obsT[t] = (IF hd.kind = "table" THEN pre ELSE CloneFrom(pre, tb[u], 1).t)
-      strictOK == (strictKnown => (expR.st = "unwound" /\ (t \in live => expR.t = obsT[t]))) /\ cloneStrict
+      \* HashTable: the re-hash closure panics at its fk-th invocation (the caller-supplied hash is not an invocation)
+      hq == IF hd.kind = "table" /\ e.k >= 0 THEN PlanFn(hd, IF hd.tr = 1 /\ e.n = 1 THEN 1 ELSE 0)[e.k] ELSE [pos |-> 0, tag |-> 0]
+      strictKnownT == e.pn = "hash" /\ hd.kind = "table"
+                      /\ e.op \in {"t_insert_unique", "t_entry_or_insert", "t_entry_insert", "t_entry_drop", "t_entry_and_modify", "t_shrink_to_fit", "reserve", "shrink_to"}
+      expRT == TableOp(e, pre, hq, [pa |-> e.fk, hs |-> <<>>])
+      strictKnownS == e.pn = "hash" /\ hd.kind = "set"
+                      /\ e.op \in {"insert", "replace", "get_or_insert", "get_or_insert_with", "s_entry_insert", "s_entry_or_insert",
+                                    "shrink_to_fit", "shrink_to", "reserve"}
+      expRS == SetOp(e, pre, pre, ph, [pa |-> e.fk, hs |-> <<>>])
+      strictOK == /\ (strictKnown => (expR.st = "unwound" /\ (t \in live => expR.t = obsT[t])))
+                  /\ (strictKnownT => (expRT.st = "unwound" /\ (t \in live => expRT.t = obsT[t])))
+                  /\ (strictKnownS => (expRS.st = "unwound" /\ (t \in live => expRS.t = obsT[t])))
+                  /\ cloneStrict
   IN /\ IF mine # {} THEN Fail(l, {b[1] : b \in mine}) ELSE TRUE
      /\ IF bad # {} /\ mine = {} THEN TLCSet(46, TLCGet(46) + 1) /\ (IF TLCGet(47) = <<>> THEN TLCSet(47, <<l, e.op, {b[1] : b \in bad}>>) ELSE TRUE) ELSE TRUE
      /\ IF bad = {} /\ ok /\ ~strictOK THEN TLCSet(42, TLCGet(42) + 1) /\ (IF TLCGet(45) = <<>> THEN TLCSet(45, <<l, e.op>>) ELSE TRUE) ELSE TRUE
